@@ -1,7 +1,7 @@
 (* C10 property theorems.  Statements + exact + Print Assumptions only. *)
 From Coq Require Import Permutation.
 From ZV.Common Require Import Base.
-From ZV.C10 Require Import Model Spec ProofsPow2 ProofsRing ProofsHist.
+From ZV.C10 Require Import Model Spec ProofsPow2 ProofsRing ProofsHist ProofsVec ProofsValVec.
 Open Scope N_scope.
 
 (* ensure_power_of_two (bit smearing) returns a power of two that is large enough, for every request up to 2^62 *)
@@ -100,3 +100,66 @@ Check full_ring_le_refuted :
   match clone N full2 with Ok q' => len q' = 2 | UB => False end /\
   match clear N full2 with Ok (q', d) => d = [7; 8] /\ buf q' 0 = None /\ buf q' 1 = None | UB => False end.
 Print Assumptions full_ring_le_refuted.
+
+(* fastvec_refines_list: for every element type and every history of push/pop/insert/remove/resize/clear/
+   shrink_to_fit/extend/reserve/get, the FastVec model never touches an uninitialised slot, refuses exactly the
+   out-of-range insert/remove, returns what a Vec returns, destroys what a Vec destroys, and ends holding the
+   Vec's sequence *)
+Theorem fastvec_refines_list :
+  forall (A : Type) c (ops : list (vop A)),
+  exists v', fv_run A (fv_with_capacity c) ops = Ok (v', snd (vec_run A [] ops)) /\
+             V A v' (fst (vec_run A [] ops)).
+Proof. exact ProofsVec.fastvec_refines_list_top. Qed.
+Check fastvec_refines_list :
+  forall (A : Type) c (ops : list (vop A)),
+  exists v', fv_run A (fv_with_capacity c) ops = Ok (v', snd (vec_run A [] ops)) /\
+             V A v' (fst (vec_run A [] ops)).
+Print Assumptions fastvec_refines_list.
+
+(* clear()/Drop of a FastVec destroys exactly the held sequence and leaves no initialised slot *)
+Theorem fastvec_clear_drops_each_once :
+  forall (A : Type) v (l : list A), V A v l ->
+  exists v', fv_clear A v = Ok (v', l) /\ V A v' [] /\ forall j, vbuf v' j = None.
+Proof. exact ProofsVec.V_clear. Qed.
+Check fastvec_clear_drops_each_once :
+  forall (A : Type) v (l : list A), V A v l ->
+  exists v', fv_clear A v = Ok (v', l) /\ V A v' [] /\ forall j, vbuf v' j = None.
+Print Assumptions fastvec_clear_drops_each_once.
+
+Theorem fastvec_clone_same_sequence :
+  forall (A : Type) v (l : list A), V A v l -> exists v', fv_clone A v = Ok v' /\ V A v' l.
+Proof. exact ProofsVec.V_clone. Qed.
+Check fastvec_clone_same_sequence :
+  forall (A : Type) v (l : list A), V A v l -> exists v', fv_clone A v = Ok v' /\ V A v' l.
+Print Assumptions fastvec_clone_same_sequence.
+
+(* ValVec32: reserve/push either provide the room asked for within u32, or refuse exactly at the u32 limit *)
+Theorem valvec32_reserve_capacity :
+  forall len cap additional, len <= cap -> cap <= MAX_CAPACITY ->
+  match vv_reserve len cap additional with
+  | None => MAX_CAPACITY < len + additional
+  | Some c => len + additional <= c /\ cap <= c /\ c <= MAX_CAPACITY
+  end.
+Proof. exact ProofsValVec.vv_reserve_spec. Qed.
+Check valvec32_reserve_capacity :
+  forall len cap additional, len <= cap -> cap <= MAX_CAPACITY ->
+  match vv_reserve len cap additional with
+  | None => MAX_CAPACITY < len + additional
+  | Some c => len + additional <= c /\ cap <= c /\ c <= MAX_CAPACITY
+  end.
+Print Assumptions valvec32_reserve_capacity.
+
+Theorem valvec32_push_capacity :
+  forall len cap, len <= cap -> cap <= MAX_CAPACITY ->
+  match vv_push_cap len cap with
+  | None => len = MAX_CAPACITY
+  | Some c => len < c /\ cap <= c /\ c <= MAX_CAPACITY
+  end.
+Proof. exact ProofsValVec.vv_push_spec. Qed.
+Check valvec32_push_capacity :
+  forall len cap, len <= cap -> cap <= MAX_CAPACITY ->
+  match vv_push_cap len cap with
+  | None => len = MAX_CAPACITY
+  | Some c => len < c /\ cap <= c /\ c <= MAX_CAPACITY
+  end.
+Print Assumptions valvec32_push_capacity.
